@@ -558,10 +558,18 @@ def _case_disp_mismatch(case):
 def _case_load(case):
     nq, nmodes, variant = case["nq"], case["np"], case["variant"]
     from cij.misc.evec_load import evec_load
-    qp = R.synthetic_qpoints(nq, nmodes, variant)
+    qspecial, qpos = case.get("qspecial", "none"), case.get("qpos", "first")
+    qp = R.synthetic_qpoints(nq, nmodes, variant, qspecial, qpos)
+    if any(z.real == 0 or z.imag == 0 for _, ms in qp for m in ms for z in m[3]):
+        raise HarnessError("reference: a vector component has a vanishing real or imaginary part")
     text = R.format_file(qp)
     back = R.parse_file(text)
-    if [(tuple(q), [(i, f, c, list(v)) for i, f, c, v in ms]) for q, ms in qp] != \
+    if qspecial != "none":
+        zero_blocks = [iq for iq, (q, _) in enumerate(back) if not any(q)]
+        want_blocks = R.special_blocks(nq, qpos) if qspecial not in ("onezero", "twozero") else []
+        if zero_blocks != want_blocks:
+            raise HarnessError(f"reference: blocks printed as the origin {zero_blocks}, intended {want_blocks}")
+    if [(R.printed_q(q), [(i, f, c, list(v)) for i, f, c, v in ms]) for q, ms in qp] != \
             [(tuple(q), [(i, f, c, list(v)) for i, f, c, v in ms]) for q, ms in back]:
         raise HarnessError("reference writer/parser do not round-trip")
     nums = [abs(x) for x in R.all_numbers(qp)]
@@ -578,7 +586,9 @@ def _case_load(case):
     finally:
         shutil.rmtree(d, ignore_errors=True)
     tally = _Tally()
-    tag = f"nq={nq} np={nmodes} variant={variant} read_nq={read_nq}"
+    tag = f"nq={nq} np={nmodes} variant={variant} read_nq={read_nq}" + (
+        f" q-points {R.special_blocks(nq, qpos)} printed as {' '.join('%.4f' % x for x in qp[R.special_blocks(nq, qpos)[0]][0])}"
+        if qspecial != "none" else "")
     try:
         if len(got) != read_nq:
             tally.add("c20:load:structure", f"{tag}: {len(got)} q-points returned")
@@ -778,7 +788,9 @@ def explore(ctx):
         "non-contiguous view / complex64 (and integer-valued data as int64, int32, nested int list); after EVERY call the caller's "
         "data must be unchanged. mode B (disp2eig): all sequences of <= 3 operations {convert D, convert row view D[0:1], "
         "D[n-1:n], convert a copy of D} on ONE array object, every result = conversion of the ORIGINAL data. "
-        "load: nq x np x 3 value patterns, every slot a distinct number. mode B (load): all valid operation sequences "
+        "load: nq x np x 3 value patterns x q-point coordinates {generic, exactly the origin, |q_i| < 5e-5 printing as 0.0000, "
+        "negative zeros, mixed zeros, one or two zero coordinates} at the {first, middle, last, every} block, every other slot a "
+        "distinct number with non-zero real AND imaginary part in every block. mode B (load): all valid operation sequences "
         "(write X|Y|Z to p, write Y to q, load p, load q, chdir, load a relative name, mutate the returned structure) up to "
         "depth 4 (quick) / 5 (thorough) ending in a load; every load = evec_ref's parse of the bytes then at that path. "
         "One case batches many calls; every case is "
@@ -906,9 +918,19 @@ def explore(ctx):
          "disp2eig-mismatch-shape", parallel=False)
 
     # ---- load
-    cases = [{"kind": "l", "nq": nq, "np": npm, "variant": v, "prefix": p}
-             for nq in (1, 2, 6) for npm in (3, 6, 60) for v in R.LOAD_VARIANTS for p in (False, True)
-             if not (p and nq == 1)]
+    cases, seen = [], set()
+    for nq in (1, 2, 3, 6):
+        for npm in (3, 6, 60):
+            for v in R.LOAD_VARIANTS:
+                for qs in R.Q_SPECIALS:
+                    for qpos in (R.Q_POSITIONS if qs != "none" else ("first",)):
+                        for p in (False, True):
+                            blocks = tuple(R.special_blocks(nq, qpos)) if qs != "none" else ()
+                            k = (nq, npm, v, qs, blocks, p)
+                            if (p and nq == 1) or k in seen:      # positions coincide for small nq
+                                continue
+                            seen.add(k)
+                            cases.append({"kind": "l", "nq": nq, "np": npm, "variant": v, "prefix": p, "qspecial": qs, "qpos": qpos})
     res = _run(ctx, cases, "load")
     if not all(r.get("distinct_numbers", True) for r in res):
         raise HarnessError("reference: synthetic file content is not distinct in every slot")
@@ -933,7 +955,8 @@ def explore(ctx):
         "disp_natoms": list(natoms), "masses": list(R.MASS_KINDS), "scalings": list(R.SCALINGS), "norm_modes": list(R.NORM_MODES),
         "disp_shapes": ["full", "rows1", "subsets"], "disp_input_presentations": list(PRESENTATIONS),
         "disp_integer_presentations": list(INT_PRESENTATIONS), "mass_containers": ["list", "ndarray", "column"],
-        "load_nq": [1, 2, 6], "load_np": [3, 6, 60], "load_variants": list(R.LOAD_VARIANTS),
+        "load_nq": [1, 2, 3, 6], "load_np": [3, 6, 60], "load_variants": list(R.LOAD_VARIANTS),
+        "load_q_specials": {k: (list(v) if v else None) for k, v in R.Q_SPECIALS.items()}, "load_q_positions": list(R.Q_POSITIONS),
     }
     ctx.notes["margins_5pct"] = {f"{n}:{b}:{p}": [round(x, 4) for x in R.margin(n, b, p)]
                                  for n in (2, 5, 60) for b in ("identity", "crot") for p in ("uc5", "ur5", "ad5")}
@@ -1053,6 +1076,22 @@ def selftest():
         need([(q, [(i, f, c, list(vv)) for i, f, c, vv in ms]) for q, ms in qp] ==
              [(q, [(i, f, c, list(vv)) for i, f, c, vv in ms]) for q, ms in back], f"synthetic {v}: round trip")
     need(any(x[1] < 0 for _, ms in R.synthetic_qpoints(2, 6, "matdyn") for x in ms), "negative frequencies present")
+    for qs, spec in R.Q_SPECIALS.items():
+        if spec is None:
+            continue
+        for qpos in R.Q_POSITIONS:
+            qp = R.synthetic_qpoints(6, 6, "matdyn", qs, qpos)
+            txt = R.format_file(qp)
+            back = R.parse_file(txt)
+            zero = [iq for iq, (qq, _) in enumerate(back) if not any(qq)]
+            need(zero == (R.special_blocks(6, qpos) if qs not in ("onezero", "twozero") else []), f"q special {qs}/{qpos}: origin blocks {zero}")
+            need(all(z.imag != 0 and z.real != 0 for _, ms in back for m in ms for z in m[3]), f"q special {qs}/{qpos}: complex everywhere")
+            need([R.printed_q(qq) for qq, _ in qp] == [qq for qq, _ in back], f"q special {qs}/{qpos}: q round trip")
+            nums = [abs(x) for x in R.all_numbers(qp)]
+            need(len(set(nums)) == len(nums), f"q special {qs}/{qpos}: other numbers distinct")
+    need(" q =       0.0000     -0.0000      0.0000" in R.format_file(R.synthetic_qpoints(1, 3, "matdyn", "tiny")), "tiny q prints as zeros")
+    need(" q =      -0.0000     -0.0000     -0.0000" in R.format_file(R.synthetic_qpoints(1, 3, "matdyn", "negzero")), "negative zero q line")
+    need(" q =       0.0000      0.0000      0.0000" in R.format_file(R.synthetic_qpoints(1, 3, "matdyn", "origin")), "origin q line as in pwscf.eig")
     for v in R.LOAD_VARIANTS:      # both signs occur in each of the six number columns of the vector lines
         for npm in (3, 6, 60):
             cols = [set() for _ in range(6)]
